@@ -342,6 +342,11 @@ func (o *cmC05) agree(m *chainMachine, post *cmSnap, what string) {
 		if (d.State == dtypes.DeploymentActive) != open {
 			m.fatalf("c05-deployment-account", "after %s: deployment %s/%d is %s but its escrow account is %s", what, m.byAddr[d.DeploymentID.Owner].name, d.DeploymentID.DSeq, d.State, fmtAcc(a, ok))
 		}
+		// "a tenant's unspent deposit is returned exactly when the deployment ends": once the
+		// deployment has ended nothing of the tenant's may remain booked on its account
+		if ok && d.State != dtypes.DeploymentActive && !a.Balance.Amount.IsZero() {
+			m.fatalf("c05-deposit-held-after-deployment-ended", "after %s: deployment %s/%d is %s but its escrow account (%s) still holds %s of the tenant's money", what, m.byAddr[d.DeploymentID.Owner].name, d.DeploymentID.DSeq, d.State, a.State, a.Balance)
+		}
 	}
 	for _, a := range post.accounts {
 		if a.State != etypes.AccountOpen {
